@@ -280,7 +280,9 @@ func c02Groups(run *vfRun) []c02Group {
 		return gs
 	}
 	for i, f := range forms {
-		gs = append(gs, c02Group{Store: "cookie", Form: f, Sizes: []string{"small", "2parts", "3parts", "4parts"}, CookieName: names[(i+seed)%len(names)],
+		// every secret form meets unsplit and 2-part cookies; 3- and 4-part cookies alternate over the forms (which one: by seed)
+		sizes := []string{"small", "2parts", []string{"3parts", "4parts"}[(i+seed)%2]}
+		gs = append(gs, c02Group{Store: "cookie", Form: f, Sizes: sizes, CookieName: names[(i+seed)%len(names)],
 			Expire: expires[(i+seed)%len(expires)], CSRFPerReq: (i+seed)%2 == 0, ShiftWidths: []int{1, 2, 3, 4, 8}})
 		gs = append(gs, c02Group{Store: "redis", Form: f, Sizes: []string{"small", "3parts"}, CookieName: names[(i+1+seed)%len(names)],
 			Expire: expires[(i+1+seed)%len(expires)], CSRFPerReq: (i+seed)%2 == 1, ShiftWidths: []int{1, 4}})
@@ -1110,7 +1112,7 @@ func TestVerif_C02(t *testing.T) {
 	c02AccMu.Lock()
 	run.Extra("accepted_as_exactly_the_issued_session", map[string]interface{}{"by_class_and_position": c02AccAll, "examples": c02AccEx})
 	c02AccMu.Unlock()
-	run.Finish(int64(run.Env.Pick(40000, 400000)), run.Env.Pick(400, 2000))
+	run.Finish(int64(run.Env.Pick(35000, 450000)), run.Env.Pick(800, 3500))
 	if run.Violations() == 0 && run.Counter("expired_base_honoured_unmodified") > 0 {
 		fmt.Printf("INCONCLUSIVE property=C02 reason=%d expired credentials are honoured unmodified (lifetime enforcement, C09): the expired must-reject bases could not be used\n", run.Counter("expired_base_honoured_unmodified"))
 		t.Fail()
